@@ -324,7 +324,16 @@ def genDraws (seed n : Nat) (rootsFile : String) : IO Unit := do
 def genFen (seed n : Nat) (rootsFile : String) : IO Unit := do
   let roots ← readLines rootsFile
   let out ← IO.getStdout
-  let ps := genPositions (seed + 307) (n / 3) roots
+  let mut ps := genPositions (seed + 307) (n / 3) roots
+  -- template positions: e.p. targets whose capture is pinned / discovers an attack / has no capturer,
+  -- castling rights in every combination, promotions (the reader must keep every field as written)
+  let mut tr := Rng.ofSeed (seed + 313)
+  for _ in List.range (n / 4) do
+    let (t1, p) := templatePos tr
+    tr := t1
+    match p with
+    | some p => ps := p :: ps
+    | none => pure ()
   let mut r := Rng.ofSeed (seed + 311)
   for p in ps do
     let t := posText p
